@@ -1,5 +1,6 @@
 """C05: WebDAV client and server agree on names, metadata and content."""
 import checks_c10
+import checks_clihist
 
 
 def run(ctx, replay, generic):
@@ -8,6 +9,11 @@ def run(ctx, replay, generic):
                    "absolute or relative name, option combination, backend: LocalFileSystem on disk or an in-memory double with arbitrary metadata) case enumerated by TLC; "
                    "results compared with the backend's own records (path, kind, size up to 2^40, time to the second from sub-second non-UTC values, MIME type with "
                    "parameters, tags with quotes / non-ASCII, bytes incl. 300 kB and binary), backend calls compared with the resolved names and flags, every ReadDir entry "
-                   "re-addressed; names concretised with spaces, %, #, ?, ;, +, quotes, XML metacharacters, non-ASCII",
+                   "re-addressed; names concretised with spaces, %, #, ?, ;, +, quotes, XML metacharacters, non-ASCII. "
+                   "Plus client-driven histories: DavSim (ClientMix) simulates call sequences (Create / RemoveAll / Mkdir / Copy / Move with every option / Open / Stat / "
+                   "ReadDir +-recursive) over evolving trees; every call is made on a real webdav.Client whose request crosses a wire-format round trip to the real Handler "
+                   "over LocalFileSystem; DavJudge threads the model tree and requires that the request sent is the one the call denotes (method, target, Destination, "
+                   "Depth, Overwrite, content, PROPFIND body), that the call fails iff the server refused, and that Stat / ReadDir / Open return exactly the tree's content, "
+                   "each member once",
                    checks_c10._mut, ["hostile"] if ctx.quick() else ["hostile", "plain"],
-                   ["in-memory FileSystem double; in-process transport", "TLC and the CommunityModules Json reader"])
+                   ["in-memory FileSystem double; in-process transport", "TLC and the CommunityModules Json reader"], more=checks_clihist)
